@@ -55,12 +55,17 @@ impl InnerFunctionManager {
 pub mod parser { use vstd::prelude::*; verus! {
     pub struct ExprAST<'a> { pub x: &'a str }
     pub struct Parser<'a> { pub x: &'a str }
+    // what the parser and the evaluator compute is decided in units tp / ev; here they are opaque functions, so that the entry points
+    // can be pinned to "initialise, parse once, evaluate once, propagate the first error"
+    pub uninterp spec fn new_of<'a>(input: &'a str) -> super::Result<Parser<'a>>;
+    pub uninterp spec fn parse_of<'a>(p: Parser<'a>) -> super::Result<ExprAST<'a>>;
+    pub uninterp spec fn exec_of(a: ExprAST, s: super::St) -> (super::Result<super::Value>, super::St);
     impl<'a> Parser<'a> {
-        #[verifier::external_body] pub fn new(input: &'a str) -> (r: super::Result<Self>) requires super::inited() { unimplemented!() }
-        #[verifier::external_body] pub fn parse_stmt(&mut self) -> (r: super::Result<ExprAST<'a>>) { unimplemented!() }
+        #[verifier::external_body] pub fn new(input: &'a str) -> (r: super::Result<Self>) requires super::inited() ensures r == new_of(input) { unimplemented!() }
+        #[verifier::external_body] pub fn parse_stmt(&mut self) -> (r: super::Result<ExprAST<'a>>) ensures r == parse_of(*old(self)) { unimplemented!() }
     }
     impl<'a> ExprAST<'a> {
-        #[verifier::external_body] pub fn exec(&self, ctx: &mut super::Context) -> (r: super::Result<super::Value>) { unimplemented!() }
+        #[verifier::external_body] pub fn exec(&self, ctx: &mut super::Context) -> (r: super::Result<super::Value>) ensures (r, final(ctx)@) == exec_of(*self, old(ctx)@) { unimplemented!() }
     }
 } }
 pub use parser::ExprAST;
